@@ -9,6 +9,7 @@ import (
 	"sort"
 	"strings"
 	"sync"
+	"sync/atomic"
 	"time"
 
 	"golang.org/x/tools/go/ssa"
@@ -143,6 +144,8 @@ type machine struct {
 	charCache map[string][2]*Term
 	memo      map[string]value
 	smallVars map[string]*inputVar
+	runesMax  int
+	splitMax  int
 	varCache  map[*Term][]string
 	concrete  map[string]*Term
 }
@@ -162,6 +165,8 @@ func newMachine(x *explorer, pool []*Solver, prefix []decision) *machine {
 		phase:          "define",
 		memo:           map[string]value{},
 		smallVars:      map[string]*inputVar{},
+		runesMax:       x.w.cfg.RunesMax,
+		splitMax:       x.w.cfg.SplitMax,
 		varCache:       map[*Term][]string{},
 		concrete:       map[string]*Term{},
 	}
@@ -409,23 +414,91 @@ func (m *machine) script(extras []*Term, declOnly []*Term, sliced bool) string {
 	return b.String()
 }
 
+// queryCache: verdicts of standalone (sliced, canonically renamed) queries,
+// shared by all paths and workers of a run.
+var (
+	queryCache sync.Map
+	cacheHits  int64
+)
+
+// canonicalScript renames variables in order of first occurrence.
+func canonicalScript(s string) string {
+	var b strings.Builder
+	names := map[string]string{}
+	for i := 0; i < len(s); {
+		if s[i] == '"' {
+			// string literal: copy verbatim ("" is an escaped quote)
+			j := i + 1
+			for j < len(s) {
+				if s[j] == '"' {
+					if j+1 < len(s) && s[j+1] == '"' {
+						j += 2
+						continue
+					}
+					break
+				}
+				j++
+			}
+			b.WriteString(s[i : j+1])
+			i = j + 1
+			continue
+		}
+		if s[i] == '|' {
+			j := strings.IndexByte(s[i+1:], '|')
+			name := s[i : i+j+2]
+			c, ok := names[name]
+			if !ok {
+				c = fmt.Sprintf("|x%d|", len(names))
+				names[name] = c
+			}
+			b.WriteString(c)
+			i += j + 2
+			continue
+		}
+		b.WriteByte(s[i])
+		i++
+	}
+	return b.String()
+}
+
 // checkWith decides satisfiability of PC ∧ extra, escalating through the
 // solver portfolio while the answer is unknown.
 func (m *machine) checkWith(extra *Term) Result {
 	res := Unknown
+	script := ""
 	for i, ss := range m.sessions {
 		if ss.s.dead {
 			continue
 		}
-		if ss.s.oneshot {
+		if ss.s.oneshot || ss.s.server {
+			if script == "" {
+				script = canonicalScript(m.script([]*Term{extra}, nil, true))
+				if r, ok := queryCache.Load(script); ok {
+					atomic.AddInt64(&cacheHits, 1)
+					return r.(Result)
+				}
+			}
 			t0 := time.Now()
-			r, _, err := ss.s.runOneShot(m.script([]*Term{extra}, nil, true)+"(check-sat)\n", false)
+			var r Result
+			var err error
+			if ss.s.server {
+				r, err = ss.s.runServer(script)
+				if err != nil && ss.s.dead {
+					// the server process died (e.g. memory): fall through to the next solver
+					m.x.noteQuery(i)
+					continue
+				}
+			} else {
+				r, _, err = ss.s.runOneShot(script+"(check-sat)\n", false)
+			}
 			m.x.noteQuery(i)
+			noteStage(ss.s.name, time.Since(t0), r)
 			m.slowLog(t0, r, extra)
 			if err != nil {
 				panic(abortRun{err.Error()})
 			}
 			if r != Unknown {
+				queryCache.Store(script, r)
 				return r
 			}
 			res = r
@@ -672,7 +745,7 @@ var byteRangeRe = reStar(reRange(0, 255))
 func (m *machine) model(extra *Term, also []*Term) (map[string]modelVal, map[string]sexp, Result) {
 	res := Unknown
 	for i, ss := range m.sessions {
-		if ss.s.dead {
+		if ss.s.dead || ss.s.server {
 			continue
 		}
 		mod, vals, r := m.modelOn(i, ss, extra, also)
@@ -802,6 +875,7 @@ func (m *machine) modelOneShot(si int, ss *sess, extra *Term, also []*Term) (map
 		t0 := time.Now()
 		r, rest, err := ss.s.runOneShot(m.script(extras, all, false)+gv.String(), true)
 		m.x.noteQuery(si)
+		noteStage(ss.s.name+"/model", time.Since(t0), r)
 		m.slowLog(t0, r, extra)
 		if err != nil {
 			panic(abortRun{err.Error()})
